@@ -1327,8 +1327,13 @@ inline void plain_access(void *p, size_t n, bool write)
   if (G.cfg.plain_sched && tl_raw == 0 && me->in_api &&
       (a - kArenaBase < kArenaSize || (a >= reinterpret_cast<uintptr_t>(&__data_start) && a < reinterpret_cast<uintptr_t>(&_end)))) {
     sched_point(me, write ? OP_PLAIN_W : OP_PLAIN_R, a);
+    if (a - kArenaBase < kArenaSize) check_access(a, n, write ? "write" : "read");  // it may have been freed while we were parked
     G.res.faults[kFPlainPreempt]++;
-    ring_push(me, write ? OP_PLAIN_W : OP_PLAIN_R, a, static_cast<int>(n), 0, 0, 0, write);
+    uint64_t cur = 0;  // value in memory when the access is performed (before it, for a write)
+    if (n == 8) cur = *reinterpret_cast<volatile uint64_t *>(a);
+    else if (n == 4) cur = *reinterpret_cast<volatile uint32_t *>(a);
+    else if (n == 1) cur = *reinterpret_cast<volatile uint8_t *>(a);
+    ring_push(me, write ? OP_PLAIN_W : OP_PLAIN_R, a, static_cast<int>(n), cur, cur, 0, write);
   }
 }
 }  // namespace
